@@ -5,7 +5,10 @@ cd /verif
 git -C /repo diff --quiet || { echo "/repo has local changes; refusing"; exit 2; }
 git -C /repo apply "$p" || { echo "patch does not apply to /repo"; exit 2; }
 for c in "$@"; do
+  # the evidence file describes the unchanged tree: keep it aside while the check runs on the seeded tree
+  cp evidence/$c.json evidence/.$c.json.keep 2>/dev/null
   out=$(./check "$c" 2>&1); rc=$?
+  [ -f evidence/.$c.json.keep ] && mv evidence/.$c.json.keep evidence/$c.json
   echo "== $c exit=$rc: $(echo "$out" | grep -c '^VIOLATION') VIOLATION line(s)"
   echo "$out" | grep '^VIOLATION\|^KNOWN' | head -4
   for r in $(echo "$out" | grep '^VIOLATION' | sed 's/.*replay=\([^ ]*\).*/\1/' | head -2); do python3 -c "
